@@ -192,9 +192,11 @@ func (a *Agent) shouldRewriteHostCandidates() bool {
 }
 
 func (a *Agent) applyHostAddressRewrite(addr netip.Addr, mappedAddrs []netip.Addr, iface string) ([]netip.Addr, bool) {
+	// Rules are written without zones: a link-local address (fe80::1%eth0) is looked up as fe80::1,
+	// otherwise the lookup fails to parse it and the address escapes every rule.
 	mappedIPs, matched, mode, innerErr := a.addressRewriteMapper.findExternalIPs(
 		CandidateTypeHost,
-		addr.String(),
+		addr.WithZone("").String(),
 		iface,
 	)
 	if innerErr != nil {
